@@ -850,6 +850,14 @@ func appendedValues(call *ssa.Call) []ssa.Value {
 			if st, ok := r2.(*ssa.Store); ok && st.Addr == ssa.Value(ia) {
 				out = append(out, st.Val)
 			}
+			// a record literal built in place: `append(list, T{a: x, b: y})`
+			if fa, ok := r2.(*ssa.FieldAddr); ok && fa.X == ssa.Value(ia) {
+				for _, r3 := range *fa.Referrers() {
+					if st, ok := r3.(*ssa.Store); ok && st.Addr == ssa.Value(fa) {
+						out = append(out, st.Val)
+					}
+				}
+			}
 		}
 	}
 	return out
